@@ -11,6 +11,7 @@ from pyvc import builtins_ as B
 from .common import *
 
 ROLL = 'openfilter/filter_runtime/rolllog.py'
+REC_END = z3.Function('REC_END', z3.IntSort(), z3.IntSort(), z3.IntSort())      # end offset of the record that starts at an offset of a log file
 RollLogFile = collections.namedtuple('RollLogFile', 'timestamp path size')
 
 
@@ -218,9 +219,23 @@ class RFile:
         if 'content' in o.f:
             return o.f['content']
         f = o.f['target']
+        start = o.f['pos']
         n = f.f['size'] - o.f['pos']
         o.f['pos'] = f.f['size']
-        return Obj('data', n=n, of=f)
+        return Obj('data', n=n, of=f, start=start)
+
+    @staticmethod
+    def m_readline(ex, o):
+        """the next '\\n'-terminated record: bytes [pos, NEXT(file, pos)) with pos < NEXT <= size, or nothing at the end of the file (assumed: the writer appends whole
+        records, so a file on disk is a sequence of complete records)"""
+        f = o.f['target']
+        pos = o.f['pos']
+        if ex.truth(zi(pos) < zi(f.f['size'])):
+            end = REC_END(zi(f.f['us']), zi(pos))
+            ex.assume(z3.And(end > zi(pos), end <= zi(f.f['size'])))
+            o.f['pos'] = end
+            return Obj('data', n=end - zi(pos), of=f, start=pos, line=True)
+        return Obj('data', n=0, of=f, start=pos, line=True)
 
     @staticmethod
     def m_close(ex, o):
@@ -267,6 +282,29 @@ class DataModel:
     @staticmethod
     def p_nbytes(ex, o):
         return o.f['n']
+
+    @staticmethod
+    def op_getslice(ex, o, lo, hi, step=None):
+        if lo is None and hi == -1 and step is None:        # data[:-1]: the record without its trailing newline
+            return Obj('data', n=o.f['n'] - 1, of=o.f['of'], start=o.f.get('start'), stripped=o)
+        return NOTHANDLED
+
+    @staticmethod
+    def m_split(ex, o, sep=None):
+        return Obj('datalines', of=o, cut=0)
+
+    @staticmethod
+    def m_decode(ex, o, *a):
+        return o
+
+
+class DataLinesModel:
+    """data.split(b'\\n'): the records of a chunk plus the empty tail"""
+    @staticmethod
+    def op_getslice(ex, o, lo, hi, step=None):
+        if lo is None and hi == -1 and step is None:
+            return Obj('datalines', of=o.f['of'], cut=o.f['cut'] + 1)
+        return NOTHANDLED
 
 
 class StripModel:
@@ -362,7 +400,7 @@ class DtModel:
 def setup(ex, clock=None):
     fs = FS(ex)
     fs.dir, fs.dir_exists = '/logs', True
-    ex.models.update(logname=LogNameModel, os=OsModel, ospath=OsPathModel, wfile=WFile, rfile=RFile, data=DataModel, lock=LockModel, dtcls=DatetimeCls, dt=DtModel,
+    ex.models.update(logname=LogNameModel, os=OsModel, ospath=OsPathModel, wfile=WFile, rfile=RFile, data=DataModel, datalines=DataLinesModel, lock=LockModel, dtcls=DatetimeCls, dt=DtModel,
                      textcontent=StripModel, relog=ReLogModel, relogmatch=ReLogMatchModel)
     ex.fstring_hook = name_hook
     m = extract.load(ROLL)
